@@ -87,7 +87,7 @@ theorem step_sig (cfg : Cfg) (s : St) (e : Ev) : sigObs (step cfg s e).2 = expec
     split
     · simp [sigObs, bg]
     · rw [joinAndSync_sig]; rfl
-  | stop => simp only [step, expectedSig]; exact sig_bg (stopCall_bg _ _ _ _)
+  | stop => simp only [step, expectedSig]; exact sig_bg (userStop_bg _ _)
   | coordDone r =>
     simp only [step]
     split
